@@ -386,9 +386,12 @@ nni_aio_start(nni_aio *aio, nni_aio_cancel_fn cancel, void *data)
 
 	nni_mtx_lock(&eq->eq_mtx);
 	NNI_ASSERT(!aio->a_stopped);
+	// (The refusals below do not pass through nni_aio_finish: an absolute
+	// expiration set for this operation must not outlive it.)
 	if (aio->a_stop || eq->eq_stop) {
 		aio->a_stop      = true;
 		aio->a_sleep     = false;
+		aio->a_use_expire = false;
 		aio->a_expire_ok = false;
 		aio->a_count     = 0;
 		aio->a_result    = NNG_ESTOPPED;
@@ -400,6 +403,7 @@ nni_aio_start(nni_aio *aio, nni_aio_cancel_fn cancel, void *data)
 	if (aio->a_abort) {
 		aio->a_sleep     = false;
 		aio->a_abort     = false;
+		aio->a_use_expire = false;
 		aio->a_expire_ok = false;
 		aio->a_count     = 0;
 		aio->a_result    = aio->a_abort_result;
@@ -411,6 +415,7 @@ nni_aio_start(nni_aio *aio, nni_aio_cancel_fn cancel, void *data)
 	aio->a_result = NNG_OK;
 	if (timeout) {
 		aio->a_sleep     = false;
+		aio->a_use_expire = false;
 		aio->a_result    = aio->a_expire_ok ? NNG_OK : NNG_ETIMEDOUT;
 		aio->a_expire_ok = false;
 		aio->a_count     = 0;
